@@ -1,5 +1,13 @@
 """C10 - references are rewritten only on request, and a regenerated reference passes."""
+import ast
+
 from .. import ief, triage
+from ..effects import Effects, fold_bool
+from ..flow import GuardMap
+from ..model import AnalysisError, norm
+
+REGEN = '_should_regenerate'
+TMP_OK = ('TMP', 'BASENAME', 'RELSAFE')
 
 
 def assertion_methods(p):
@@ -7,8 +15,347 @@ def assertion_methods(p):
     return [f for n, f in sorted(c.methods.items()) if n.startswith('assert')]
 
 
+def regen_guard(g):
+    """(polarity, kind-argument expr) if g is a test of self._should_regenerate(k)."""
+    if g.kind != 'if':
+        return None
+    e = g.expr
+    if isinstance(e, ast.Call) and isinstance(e.func, ast.Attribute) and e.func.attr == REGEN and len(e.args) == 1:
+        return (g.pol, e.args[0])
+    return None
+
+
+def prov_is_tmp(prov):
+    return 'TMP' in prov and all(t in TMP_OK or t.startswith('const:') for t in prov)
+
+
 def check(run):
     p = run.prog
-    roots = assertion_methods(p)
-    ief.run_ief(run, 'C10', roots, triage=triage.IEF)
+    methods = assertion_methods(p)
+    if len(methods) < 10:
+        raise AnalysisError('ReferenceTest has %d assert* methods; 10 confirmed on the pinned tree' % len(methods))
+    rt = p.cls('ReferenceTest')
+    if p.lookup_method(rt.qn, REGEN) is None:
+        raise AnalysisError('ReferenceTest._should_regenerate vanished')
+    E = Effects(p)
+
+    run.rule('C10-GUARD', 'every file-system effect whose path derives from _resolve_reference_path(s) is reached only under '
+                          'the true arm of self._should_regenerate(.) on every call chain from an assertion method')
+    run.rule('C10-NOWRITE', 'every effect reached on the false arm (normal mode) writes under self.tmp_dir only: its path '
+                            'has provenance TMP with relative-safe components, never the reference, a caller path or an unclassifiable expression')
+    run.rule('C10-KINDFWD', 'the regeneration decision and the reference location are taken for the assertion\'s own `kind` '
+                            'parameter (wrappers forward kind=kind)')
+    n_eff = 0
+    for m in methods:
+        effs, _ = E.summary(m, rt.qn)
+        has_regen = False
+        for e in effs:
+            n_eff += 1
+            rgs = [regen_guard(g) for g in e.guards]
+            rgs = [x for x in rgs if x]
+            pos = [x for x in rgs if x[0]]
+            neg = [x for x in rgs if not x[0]]
+            site = '%s::%s::%s(%s)%s' % (m.rel, m.short, e.kind, ','.join(sorted(e.prov)),
+                                        '@' + '>'.join(e.via) if e.via else '')
+            if 'REF' in e.prov:
+                has_regen = has_regen or bool(pos)
+                run.ob('C10-GUARD', site, bool(pos) and not neg,
+                       'reference write %s' % e.describe(), fn=m, node=e.node,
+                       detail={'guards': [g.text() for g in e.guards], 'via': list(e.via)})
+            elif pos:
+                # regeneration arm writing elsewhere (e.g. nothing today): allowed only under TMP
+                run.ob('C10-NOWRITE', site, prov_is_tmp(e.prov) or e.prov <= {'REF'},
+                       'regeneration-arm effect %s' % e.describe(), fn=m, node=e.node)
+            else:
+                run.ob('C10-NOWRITE', site, prov_is_tmp(e.prov),
+                       'normal-mode effect %s' % e.describe(), fn=m, node=e.node,
+                       detail={'provenance': sorted(e.prov), 'via': list(e.via)})
+        # KINDFWD
+        if 'kind' in m.params:
+            bad = []
+            seen_k = 0
+            for e in effs:
+                for g in e.guards:
+                    rg = regen_guard(g)
+                    if rg:
+                        seen_k += 1
+                        if not (isinstance(rg[1], ast.Name) and rg[1].id == 'kind'):
+                            bad.append(('regeneration decided for %s' % ast.unparse(rg[1]), e.node))
+            for n in p.own_nodes(m):
+                if isinstance(n, ast.Call) and isinstance(n.func, ast.Attribute) and \
+                        isinstance(n.func.value, ast.Name) and n.func.value.id == 'self':
+                    nm = n.func.attr
+                    karg = None
+                    if nm == REGEN and n.args:
+                        karg = n.args[0]
+                    elif nm in ('_resolve_reference_path', '_resolve_reference_paths') or nm.startswith('assert'):
+                        for k in n.keywords:
+                            if k.arg == 'kind':
+                                karg = k.value
+                        if karg is None and nm.startswith('_resolve') and len(n.args) > 1:
+                            karg = n.args[1]
+                        if karg is None:
+                            tgt = p.lookup_method(rt.qn, nm)
+                            if tgt is not None and 'kind' in tgt.params:
+                                bad.append(('%s called without the kind' % nm, n))
+                            continue
+                    else:
+                        continue
+                    seen_k += 1
+                    if not (isinstance(karg, ast.Name) and karg.id == 'kind'):
+                        bad.append(('%s receives %s instead of kind' % (nm, ast.unparse(karg)), n))
+            dd = {}
+            for msg, node in bad:
+                dd[msg] = node
+            if not dd:
+                run.ob('C10-KINDFWD', '%s::%s::kind' % (m.rel, m.short), True,
+                       'all %d uses of the kind are the method\'s own parameter' % seen_k, fn=m)
+            for msg, node in sorted(dd.items()):
+                run.ob('C10-KINDFWD', '%s::%s::kind' % (m.rel, m.short), False,
+                       '%s: %s' % (m.short, msg), fn=m, node=node)
+    run.floor('C10-GUARD', sum(1 for o in run.obs if o.rule == 'C10-GUARD'), 12)
+    run.floor('C10-NOWRITE', sum(1 for o in run.obs if o.rule == 'C10-NOWRITE'), 30)
+    run.floor('C10-KINDFWD', sum(1 for o in run.obs if o.rule == 'C10-KINDFWD'), 9)
+
+    whosets(run, p, rt)
+    flags(run, p)
+    rw(run, p, E, rt)
+    ief.run_ief(run, 'C10', methods, triage=triage.IEF)
     run.floor('C10-IEF', run.units['ief_functions_checked'], 60)
+    run.assume('user callbacks (preprocess, condition, csv_read_fn, a custom writer/loader) are effect-free')
+    run.trust('os/shutil/open/pandas write primitives are exactly those listed in sa/effects.py')
+
+
+def whosets(run, p, rt):
+    run.rule('C10-WHOSETS', 'the regeneration table is stored into only by set_regeneration, and set_regeneration is called only '
+                            'from functions that read the command line (argv / pytest getoption)')
+    stores = []
+    for f in p.funcs.values():
+        for n in p.own_nodes(f):
+            tgt = None
+            if isinstance(n, (ast.Assign, ast.AugAssign, ast.AnnAssign, ast.Delete)):
+                tgts = n.targets if isinstance(n, (ast.Assign, ast.Delete)) else [n.target]
+                for t in tgts:
+                    for x in ast.walk(t):
+                        if isinstance(x, ast.Attribute) and x.attr == 'regenerate' and \
+                                isinstance(x.ctx, (ast.Store, ast.Del, ast.Load)):
+                            # attribute store, or subscript store through it
+                            if isinstance(x.ctx, (ast.Store, ast.Del)) or isinstance(t, ast.Subscript):
+                                tgt = x
+            if isinstance(n, ast.Call) and isinstance(n.func, ast.Attribute) and \
+                    n.func.attr in ('update', 'clear', 'pop', 'setdefault', 'popitem', '__setitem__') and \
+                    isinstance(n.func.value, ast.Attribute) and n.func.value.attr == 'regenerate':
+                tgt = n.func.value
+            if isinstance(n, ast.Call) and isinstance(n.func, ast.Name) and n.func.id == 'setattr' and len(n.args) >= 2 \
+                    and isinstance(n.args[1], ast.Constant) and n.args[1].value == 'regenerate':
+                tgt = n
+            if tgt is not None:
+                stores.append((f, n))
+    # class-level assignments other than the initial empty table
+    for c in p.classes.values():
+        for b in c.node.body:
+            if isinstance(b, ast.Assign) and any(isinstance(t, ast.Name) and t.id == 'regenerate' for t in b.targets):
+                ok = isinstance(b.value, ast.Dict) and not b.value.keys
+                run.ob('C10-WHOSETS', '%s::%s::class-attribute' % (c.mod.rel, c.name), ok,
+                       'class-level regenerate table starts empty' if ok else 'class-level regenerate table is pre-populated: %s' % norm(b),
+                       rel=c.mod.rel, line=b.lineno, nontrivial=False)
+    for f, n in stores:
+        ok = f.name == 'set_regeneration'
+        run.ob('C10-WHOSETS', '%s::%s::store' % (f.rel, f.short), ok,
+               'store into the regeneration table in %s' % f.short, fn=f, node=n)
+    callers = []
+    for f in p.funcs.values():
+        for n in p.own_nodes(f):
+            if isinstance(n, ast.Call) and isinstance(n.func, ast.Attribute) and n.func.attr == 'set_regeneration':
+                callers.append((f, n))
+    for f, n in callers:
+        reads_cli = False
+        for x in p.own_nodes(f):
+            if isinstance(x, ast.Name) and x.id == 'argv':
+                reads_cli = True
+            if isinstance(x, ast.Call) and isinstance(x.func, ast.Attribute) and x.func.attr == 'getoption':
+                reads_cli = True
+        run.ob('C10-WHOSETS', '%s::%s::call:%s' % (f.rel, f.short, norm(n)), reads_cli,
+               '%s calls %s' % (f.short, norm(n)), fn=f, node=n)
+    run.floor('C10-WHOSETS', len(stores) + len(callers), 5)
+
+
+def flags(run, p):
+    run.rule('C10-FLAGS', 'each documented spelling (-W --W --write-all / -w --w --write / -wquiet --wquiet) is a literal tested '
+                          'against argv; set_regeneration() for all kinds is reached only through those write-all literals and '
+                          'set_regeneration(kind) only under the write literals with kind split on commas; every pytest '
+                          'getoption(x) has an addoption(x)')
+    f = p.fn('_set_flags_from_argv')
+    lits = set()
+    for n in p.own_nodes(f):
+        if isinstance(n, ast.Constant) and isinstance(n.value, str):
+            lits.add(n.value)
+    need = {'W': 'single-dash cluster letter W', '--W': '--W', '--write-all': '--write-all', '-w': '-w', '--w': '--w',
+            '--write': '--write', '-wquiet': '-wquiet', '--wquiet': '--wquiet'}
+    for k, what in sorted(need.items()):
+        run.ob('C10-FLAGS', '%s::%s::literal:%s' % (f.rel, f.short, k), k in lits,
+               'flag spelling %s is %s in the argv parser' % (what, 'present' if k in lits else 'MISSING'), fn=f, nontrivial=False)
+    gm = GuardMap(f.node)
+    # where is `regenerate` set True, and under which literal tests
+    for n in p.own_nodes(f):
+        if isinstance(n, ast.Assign) and any(isinstance(t, ast.Name) and t.id == 'regenerate' for t in n.targets):
+            if isinstance(n.value, ast.Constant) and n.value.value is True:
+                ch = gm.chain(n) or ()
+                txt = ' & '.join(g.text() for g in ch)
+                consts = set()
+                for g in ch:
+                    node = g.test if g.kind == 'if' else (g.test.iter if g.kind == 'loop' and isinstance(g.test, ast.For) else None)
+                    if node is not None:
+                        for x in ast.walk(node):
+                            if isinstance(x, ast.Constant) and isinstance(x.value, str):
+                                consts.add(x.value)
+                ok = bool(consts & {'W', '--W', '--write-all'}) and not (consts & {'-w', '--w', '--write', '1', '0', '--tagged'})
+                run.ob('C10-FLAGS', '%s::%s::regenerate=True@%s' % (f.rel, f.short, '|'.join(sorted(consts & set(need)))), ok,
+                       'write-all is switched on under [%s]' % txt, fn=f, node=n)
+        if isinstance(n, ast.Call) and isinstance(n.func, ast.Attribute) and n.func.attr == 'set_regeneration':
+            ch = gm.chain(n) or ()
+            txt = ' & '.join(g.text() for g in ch)
+            if not n.args and not n.keywords:
+                ok = any(g.kind == 'if' and g.pol and ast.unparse(g.test) == 'regenerate' for g in ch)
+                run.ob('C10-FLAGS', '%s::%s::set_regeneration()' % (f.rel, f.short), ok,
+                       'all-kinds regeneration is requested under [%s]' % txt, fn=f, node=n)
+            else:
+                consts = set()
+                split_comma = False
+                for g in ch:
+                    if g.kind == 'loop' and isinstance(g.test, ast.For):
+                        for x in ast.walk(g.test.iter):
+                            if isinstance(x, ast.Constant) and isinstance(x.value, str):
+                                consts.add(x.value)
+                            if isinstance(x, ast.Call) and isinstance(x.func, ast.Attribute) and x.func.attr == 'split' \
+                                    and x.args and isinstance(x.args[0], ast.Constant) and x.args[0].value == ',':
+                                split_comma = True
+                ok = {'-w', '--w', '--write'} <= consts and split_comma and not (consts & {'--write-all', '--W'})
+                run.ob('C10-FLAGS', '%s::%s::set_regeneration(kind)' % (f.rel, f.short), ok,
+                       'per-kind regeneration is requested inside the loop over %s, kinds split on commas: %s'
+                       % (sorted(consts), split_comma), fn=f, node=n)
+    # pytest side
+    adds, gets = set(), []
+    for g in p.funcs.values():
+        if g.mod.name.startswith('tdda.referencetest'):
+            for n in p.own_nodes(g):
+                if isinstance(n, ast.Call) and isinstance(n.func, ast.Attribute) and n.args and \
+                        isinstance(n.args[0], ast.Constant) and isinstance(n.args[0].value, str):
+                    if n.func.attr == 'addoption':
+                        adds.add(n.args[0].value)
+                    elif n.func.attr == 'getoption':
+                        gets.append((g, n, n.args[0].value))
+    for g, n, opt in gets:
+        run.ob('C10-FLAGS', '%s::%s::getoption:%s' % (g.rel, g.short, opt), opt in adds,
+               'pytest option %s read by %s is %s' % (opt, g.short, 'registered' if opt in adds else 'never registered by addoption'),
+               fn=g, node=n, nontrivial=False)
+    # pytest ref(): write-all -> set_regeneration(), write -> per kind with comma split
+    r = p.fn('referencepytest.ref')
+    gm = GuardMap(r.node)
+    for n in p.own_nodes(r):
+        if isinstance(n, ast.Call) and isinstance(n.func, ast.Attribute) and n.func.attr == 'set_regeneration':
+            ch = gm.chain(n) or ()
+            txt = ' & '.join(g.text() for g in ch)
+            opts = set()
+            for g in ch:
+                if g.kind == 'if' and g.pol:
+                    for x in ast.walk(g.test):
+                        if isinstance(x, ast.Constant) and isinstance(x.value, str):
+                            opts.add(x.value)
+            if not n.args:
+                ok = '--write-all' in opts
+                run.ob('C10-FLAGS', '%s::%s::set_regeneration()' % (r.rel, r.short), ok,
+                       'pytest: all-kinds regeneration under [%s]' % txt, fn=r, node=n)
+            else:
+                src = [g for g in ch if g.kind == 'loop']
+                split_comma = any(isinstance(x, ast.Call) and isinstance(x.func, ast.Attribute) and x.func.attr == 'split'
+                                  and x.args and isinstance(x.args[0], ast.Constant) and x.args[0].value == ','
+                                  for g in src for x in ast.walk(g.test.iter))
+                # the iterated value derives from getoption('--write')
+                from_write = False
+                for x in p.own_nodes(r):
+                    if isinstance(x, ast.Assign) and isinstance(x.value, ast.Call) and \
+                            isinstance(x.value.func, ast.Attribute) and x.value.func.attr == 'getoption' and \
+                            x.value.args and isinstance(x.value.args[0], ast.Constant) and x.value.args[0].value == '--write':
+                        names = {t.id for t in x.targets if isinstance(t, ast.Name)}
+                        for g in src:
+                            if any(isinstance(y, ast.Name) and y.id in names for y in ast.walk(g.test.iter)):
+                                from_write = True
+                not_all = any(g.kind == 'if' and not g.pol and '--write-all' in ast.unparse(g.test) for g in ch)
+                run.ob('C10-FLAGS', '%s::%s::set_regeneration(kind)' % (r.rel, r.short), split_comma and from_write and not_all,
+                       'pytest: per-kind regeneration from --write (comma split %s, from --write %s, not under --write-all %s)'
+                       % (split_comma, from_write, not_all), fn=r, node=n)
+    run.floor('C10-FLAGS', sum(1 for o in run.obs if o.rule == 'C10-FLAGS'), 14)
+
+
+def open_calls(p, f):
+    out = []
+    for n in p.own_nodes(f):
+        if isinstance(n, ast.Call) and isinstance(n.func, ast.Name) and n.func.id == 'open':
+            mode = n.args[1] if len(n.args) > 1 else None
+            enc = None
+            for k in n.keywords:
+                if k.arg == 'mode':
+                    mode = k.value
+                if k.arg == 'encoding':
+                    enc = k.value
+            out.append((n, mode, enc))
+    return out
+
+
+def rw(run, p, E, rt):
+    """Reference writer and reader agree per kind of result."""
+    run.rule('C10-RW', 'per result kind the regeneration writer and the comparison reader agree: binary wb/rb; DataFrame '
+                       'to_parquet/read_parquet chosen by the same extension test; text written with the encoding the reader assumes')
+    # binary: _write_reference_result opens 'wb' when binary, check_binary_file opens expected 'rb'
+    w = p.method('ReferenceTest', '_write_reference_result')
+    oc = open_calls(p, w)
+    modes = []
+    encs = []
+    for n, mode, enc in oc:
+        ms = E._modes(mode, _mode_env(w))
+        modes += ms
+        encs.append(enc)
+    rb = p.method('FilesComparison', 'check_binary_file')
+    rmodes = [m.value for n, m, e in open_calls(p, rb) if isinstance(m, ast.Constant)]
+    run.ob('C10-RW', '%s::%s::binary' % (w.rel, w.short), 'wb' in modes and rmodes and all(m == 'rb' for m in rmodes),
+           'binary references: written with %s, read with %s' % (sorted(set(modes)), sorted(set(rmodes))), fn=w)
+    # dataframe: extension test identical on both sides
+    wd = p.method('PandasComparison', '_write_reference_dataframe')
+    rd = p.method('PandasComparison', 'load_serialized_dataframe')
+
+    def ext_tests(f, attr):
+        gm = GuardMap(f.node)
+        out = []
+        for n in p.own_nodes(f):
+            if isinstance(n, ast.Call) and isinstance(n.func, ast.Attribute) and n.func.attr == attr:
+                ch = gm.chain(n) or ()
+                out.append(sorted(g.text() for g in ch if g.kind == 'if'))
+        return out
+    wt = ext_tests(wd, 'to_parquet')
+    rdt = ext_tests(rd, 'read_parquet')
+    defs_w = [norm(n) for n in p.own_nodes(wd) if isinstance(n, ast.Assign) and 'ext' in norm(n)[:5]]
+    defs_r = [norm(n) for n in p.own_nodes(rd) if isinstance(n, ast.Assign) and 'ext' in norm(n)[:5]]
+    run.ob('C10-RW', '%s::%s::parquet' % (wd.rel, wd.short), bool(wt) and wt == rdt and defs_w == defs_r,
+           'DataFrame references: to_parquet under %s (%s); read_parquet under %s (%s)' % (wt, defs_w, rdt, defs_r), fn=wd)
+    # text: encoding of writer vs reader
+    readers = [p.method('FilesComparison', 'check_file'), p.method('FilesComparison', 'check_string_against_file')]
+    txt_enc = [ast.unparse(e) if e is not None else None for (n, mode, e) in oc]
+    rd_enc = []
+    for r in readers:
+        for n, mode, enc in open_calls(p, r):
+            rd_enc.append(ast.unparse(enc) if enc is not None else None)
+    ok = all(e is not None for e in txt_enc) or all(e is None for e in rd_enc)
+    run.ob('C10-RW', '%s::%s::text-encoding' % (w.rel, w.short), ok,
+           'text references: writer open() encodings %s, reader open() encodings %s' % (txt_enc, rd_enc), fn=w,
+           node=oc[0][0] if oc else None)
+    run.floor('C10-RW', 3, 3)
+
+
+def _mode_env(f):
+    env = {}
+    for n in ast.walk(f.node):
+        if isinstance(n, ast.Assign) and len(n.targets) == 1 and isinstance(n.targets[0], ast.Name) \
+                and isinstance(n.value, ast.IfExp) and all(isinstance(x, ast.Constant) for x in (n.value.body, n.value.orelse)):
+            env['#modes:' + n.targets[0].id] = [n.value.body.value, n.value.orelse.value]
+    return env
